@@ -24,6 +24,7 @@ func init() {
 			runCleanupCalled(p, r)
 			runReplaceCloses(p, r, "REPLACE-CLOSES")
 			runOwnPair(p, r, "OWN-PAIR")
+			runOwnTableShared(p, r, "OWN-PAIR")
 			runJoined(p, r, "JOINED")
 		},
 		MinCounts: map[string]int{"OPEN-OWNED": 3, "CLEANUP-CALLED": 6, "REPLACE-CLOSES": 2, "JOINED": 8},
@@ -41,8 +42,8 @@ func init() {
 	})
 	register(&core.Spec{
 		ID: "C42",
-		Explanation: "Decides structural necessary conditions of C42: (FLAGS) the open(2) flags compiled for each redirection mode are exactly what the mode means - < is O_RDONLY; > has O_WRONLY|O_CREATE|O_TRUNC and not O_APPEND; >> has O_WRONLY|O_CREATE|O_APPEND and not O_TRUNC; <> has O_RDWR|O_CREATE and neither O_TRUNC nor O_APPEND - and every mode of the parser's enumeration has a case; (FD-RANGE) every index into the port table with an fd evaluated from the program is guarded on both sides, and the table is never grown by an unbounded fd; (DUP-SELF) the port duplicated by n>&m is never one that the same redirection has just closed (m = n is a no-op); (OPEN-OWNED) a file opened by a redirection is recorded as owned by the form, which closes it when the form finishes; (REPLACE-CLOSES) the old destination port is closed before being replaced; (SENDERR-NONNIL) the port installed by n>&- raises an exception on value output; (PORT-TOTAL) value I/O on whatever port a redirection installs is total: every Port literal of pkg/eval has a non-nil value channel (a nil channel blocks `each ... <&-` forever), and every send on a port's value channel is dominated by the edge that excludes each closed placeholder channel (`put x >&0` turns an input port into the output; a send on its closed channel panics). That bytes actually reach the file is not decided.",
-		NotCovered:  "actual data routing at run time; OS-level semantics of the flags; a pipeline stage that sends values into its own input pipe (`... | put x >&0`) after the upstream stage closed it",
+		Explanation: "Decides structural necessary conditions of C42: (FLAGS) the open(2) flags compiled for each redirection mode are exactly what the mode means - < is O_RDONLY; > has O_WRONLY|O_CREATE|O_TRUNC and not O_APPEND; >> has O_WRONLY|O_CREATE|O_APPEND and not O_TRUNC; <> has O_RDWR|O_CREATE and neither O_TRUNC nor O_APPEND - and every mode of the parser's enumeration has a case; (FD-RANGE) every index into the port table with an fd evaluated from the program is guarded on both sides, and the table is never grown by an unbounded fd; (DUP-SELF) the port duplicated by n>&m is never one that the same redirection has just closed (m = n is a no-op); (OPEN-OWNED) a file opened by a redirection is recorded as owned by the form, which closes it when the form finishes; (REPLACE-CLOSES) the old destination port is closed before being replaced; (SENDERR-NONNIL) the port installed by n>&- raises an exception on value output; (PORT-TOTAL) value I/O on whatever port a redirection installs is total: every Port literal of pkg/eval has a non-nil value channel (a nil channel blocks `each ... <&-` forever), and every send on a port's value channel is dominated by the edge that excludes each closed placeholder channel (`put x >&0` turns an input port into the output; a send on its closed channel panics), the sending select is reached only after a non-blocking check of sendStop, and the reading end of a pipe is a stopped port. That bytes actually reach the file is not decided.",
+		NotCovered:  "actual data routing at run time; OS-level semantics of the flags",
 		Rules:       []string{"FLAGS", "FD-RANGE", "DUP-SELF", "OPEN-OWNED", "REPLACE-CLOSES", "OWN-PAIR", "SENDERR-NONNIL", "PORT-TOTAL"},
 		Patterns:    []string{"./pkg/eval/...", "./pkg/mods/..."},
 		Run: func(p *core.Program, r *core.Report) {
@@ -56,6 +57,7 @@ func init() {
 			runOpenOwnedRedir(p, r, "OPEN-OWNED")
 			runReplaceCloses(p, r, "REPLACE-CLOSES")
 			runOwnPair(p, r, "OWN-PAIR")
+			runOwnTableShared(p, r, "OWN-PAIR")
 			runSendErrNonNil(p, r)
 			runPortTotal(p, r)
 		},
@@ -63,9 +65,12 @@ func init() {
 		Trusted:   trustedBase,
 		Controls: []core.Control{
 			{Name: "revert-fix-put-on-closed-placeholder", Rule: "PORT-TOTAL", File: "pkg/eval/port.go", Old: "\tif vo.data == ClosedChan {", New: "\tif false {", Fire: true, Want: "ClosedChan", Quick: true, Patterns: []string{"./pkg/eval"}},
+			{Name: "form-updates-a-private-copy-of-the-ownership-table", Rule: "OWN-PAIR", File: "pkg/eval/compile_effect.go", Old: "\t\texc := redirOp.exec(fm, fops)\n", New: "\t\tprivate := *fops\n\t\texc := redirOp.exec(fm, &private)\n", Fire: true, Want: "ownership table", Patterns: []string{"./pkg/eval"}},
+			{Name: "revert-fix-put-does-not-check-stop-first", Rule: "PORT-TOTAL", File: "pkg/eval/port.go", Old: "\tselect {\n\tcase <-vo.sendStop:\n\t\t// No value may be sent any more, even if the channel has room. In\n\t\t// particular the reading end of a pipe is never sent on.\n\t\treturn *vo.sendError\n\tdefault:\n\t}\n", New: "", Fire: true, Want: "checks sendStop before", Patterns: []string{"./pkg/eval"}},
+			{Name: "revert-fix-pipe-reading-end-accepts-values", Rule: "PORT-TOTAL", File: "pkg/eval/compile_effect.go", Old: "\t\t\t\tsendStop: closedSendStop, sendError: &ErrPortDoesNotSupportValueOutput}\n\t\t}", New: "\t\t\t\tsendStop: sendStop, sendError: sendError, readerGone: readerGone}\n\t\t}", Fire: true, Want: "reading end of a pipe", Patterns: []string{"./pkg/eval"}},
 			{Name: "revert-fix-closed-port-nil-channel", Rule: "PORT-TOTAL", File: "pkg/eval/compile_effect.go", Old: "\t\t\t\tChan: ClosedChan,\n\t\t\t\t// Ensure that writing to value output throws an exception", New: "\t\t\t\t// Ensure that writing to value output throws an exception", Fire: true, Want: "Port literal", Patterns: []string{"./pkg/eval"}},
 			{Name: "revert-fix-write-mode-file-port-nil-channel", Rule: "PORT-TOTAL", File: "pkg/eval/compile_effect.go", Old: "\t\tChan: ClosedChan, sendStop: closedSendStop,", New: "\t\tChan: nil, sendStop: closedSendStop,", Fire: true, Want: "Port literal", Patterns: []string{"./pkg/eval"}},
-			{Name: "benign-placeholder-check-inverted", Rule: "PORT-TOTAL", File: "pkg/eval/port.go", Old: "\tif vo.data == ClosedChan {\n\t\t// An input-only or closed port redirected to an output, like in\n\t\t// \"put x >&0\". Sending on the closed channel would panic.\n\t\treturn ErrPortDoesNotSupportValueOutput\n\t}\n\tselect {\n\tcase vo.data <- v:\n\t\treturn nil\n\tcase <-vo.sendStop:\n\t\treturn *vo.sendError\n\t}", New: "\tif ClosedChan != vo.data {\n\t\tselect {\n\t\tcase vo.data <- v:\n\t\t\treturn nil\n\t\tcase <-vo.sendStop:\n\t\t\treturn *vo.sendError\n\t\t}\n\t}\n\treturn ErrPortDoesNotSupportValueOutput", Fire: false, Patterns: []string{"./pkg/eval"}},
+			{Name: "benign-placeholder-check-inverted", Rule: "PORT-TOTAL", File: "pkg/eval/port.go", Old: "\tif vo.data == ClosedChan {\n\t\t// An input-only or closed port redirected to an output, like in\n\t\t// \"put x >&0\". Sending on the closed channel would panic.\n\t\treturn ErrPortDoesNotSupportValueOutput\n\t}\n\tselect {\n\tcase <-vo.sendStop:", New: "\tif ClosedChan != vo.data {\n\t\treturn vo.put(v)\n\t}\n\treturn ErrPortDoesNotSupportValueOutput\n}\n\nfunc (vo valueOutput) put(v any) error {\n\tselect {\n\tcase <-vo.sendStop:", Fire: false, Patterns: []string{"./pkg/eval"}},
 			{Name: "readwrite-truncates", Rule: "FLAGS", File: "pkg/eval/compile_effect.go", Old: "return os.O_RDWR | os.O_CREATE\n", New: "return os.O_RDWR | os.O_CREATE | os.O_TRUNC\n", Fire: true, Quick: true, Patterns: []string{"./pkg/eval"}},
 			{Name: "append-without-append-flag", Rule: "FLAGS", File: "pkg/eval/compile_effect.go", Old: "return os.O_WRONLY | os.O_CREATE | os.O_APPEND", New: "return os.O_WRONLY | os.O_CREATE", Fire: true, Patterns: []string{"./pkg/eval"}},
 			{Name: "write-without-trunc", Rule: "FLAGS", File: "pkg/eval/compile_effect.go", Old: "return os.O_WRONLY | os.O_CREATE | os.O_TRUNC", New: "return os.O_WRONLY | os.O_CREATE", Fire: true, Patterns: []string{"./pkg/eval"}},
